@@ -4,8 +4,8 @@
 (*                                                                         *)
 (* State of a world: the number of doubles drawn from its engine so far    *)
 (* (pos).  The engine is mt19937 seeded with the effective seed = the      *)
-(* file's "random number seed" if >= 0, else the constructor argument; a   *)
-(* uniform double costs two 32-bit words.                                  *)
+(* file's "random number seed" if >= 0 (0 is a seed like any other), else  *)
+(* the constructor argument; a uniform double costs two 32-bit words.      *)
 (*                                                                         *)
 (* DrawCount(query): a grains request of n grains matched by a random      *)
 (* grains model draws 3 n doubles (rotation) + n more if the grain size is *)
